@@ -196,6 +196,14 @@ class TreeAnnotator(transformer.Base):
     node.body = self.visit_block(node.body)
     self.current_analyzer = parent_analyzer
 
+    # Decorators and default values are evaluated by the def statement itself,
+    # in the enclosing function.
+    if parent_analyzer is not None:
+      node.decorator_list = self.visit_block(node.decorator_list)
+      node.args.defaults = self.visit_block(node.args.defaults)
+      node.args.kw_defaults = [
+          d if d is None else self.visit(d) for d in node.args.kw_defaults]
+
     return node
 
   def visit_arg(self, node):
